@@ -34,24 +34,26 @@ def run(ck):
   i = 0
   for ckey, scheds in sorted(by_cfg.items()):
     c = core.json.loads(ckey)
-    combos = []
     if quick:
-      # one rotating combination plus one that always stresses the eigh route with no ridge
-      # on rank-deficient statistics (vector-shaped parameters), where a clipped
-      # non-positive eigenvalue would turn into an infinite root
-      combos = [(THRS[i % 4], VARIANTS[i % 6]), ([0.1, 1e30][i % 2], VARIANTS[[1, 5][(i // 2) % 2]])]
+      # every (mode, S, P) x every threshold; graft/root variants rotate; each combination gets a
+      # quarter of the schedules.  Plus one combination that always stresses the eigh route with no
+      # ridge on rank-deficient statistics (vector-shaped parameters), where a clipped non-positive
+      # eigenvalue would turn into an infinite root.
+      combos = [(thr, VARIANTS[(i + k) % 6], scheds[k::4], SHAPES[(i + k) % len(SHAPES)], bool((i + k) % 2))
+                for k, thr in enumerate(THRS)]
+      combos.append(([0.1, 1e30][i % 2], VARIANTS[[1, 5][(i // 2) % 2]], scheds[(i % 4)::4], SHAPES[0], True))
     else:
-      combos = [(t, v) for t in THRS for v in VARIANTS]
-    for ci, (thr, (eigh, eps, rel, graft)) in enumerate(combos):
+      combos = [(t, v, scheds, SHAPES[(i + a + b) % len(SHAPES)], bool((a + b) % 2))
+                for a, t in enumerate(THRS) for b, v in enumerate(VARIANTS)]
+    for (thr, (eigh, eps, rel, graft), sub, shapes, merge) in combos:
       o = {"mode": c["mode"], "S": c["S"], "P": c["P"], "Start": c["Start"], "thr": thr, "eigh": eigh,
            "matrix_epsilon": eps, "relative_eps": rel, "graft": graft, "beta1": 0.5, "beta2": 0.75,
-           "D": 1, "merge": bool(i % 2) or (quick and ci == 1)}
-      sub = scheds if not quick else scheds[(i % 2)::2]
-      nchunk = 2 if quick else 3
+           "D": 1, "merge": merge}
+      nchunk = 1 if quick else 3
       for q in range(nchunk):
-        jobs.append({"o": o, "shapes": SHAPES[0 if (quick and ci == 1) else i % len(SHAPES)], "schedules": sub[q::nchunk],
-                     "seed": ck.seed * 100000 + i * 1000})
-      i += 1
+        jobs.append({"o": o, "shapes": shapes, "schedules": sub[q::nchunk],
+                     "seed": ck.seed * 100000 + len(jobs) * 1000})
+    i += 1
   res = core.run_workers("harness.workers.ds_faults", jobs, work=ck.work, chunk=1)
   traces = []
   for j, r in zip(jobs, res):
